@@ -7,7 +7,7 @@
 //
 // cases.json: [{"id","category","rule","label":"avoid"|"prefer","files":[{"name","text"}],"config_yaml":"",
 //
-//	"embed":"all"|"none"|"nocrlf,noblank,notop,noappend" (exclusions), "batch":bool,
+//	"embed":"all"|"none"|"nocrlf,noblank,notop,noappend,maxblank<N>" (exclusions), "batch":bool,
 //	"embeddings":[["P3","C"],...] (replay: exactly these embeddings),
 //	"shift_targets":[9,99], "shift_rows":"all"|"nonblank" (boundary shifts, see below)}]
 //
@@ -243,6 +243,20 @@ func allowed(embed string, ops []string) bool {
 		return len(ops) == 0
 	}
 	for _, ex := range strings.Split(embed, ",") {
+		// maxblank<N>: at most N inserted blank lines in all (rules that measure the length of the file)
+		if strings.HasPrefix(ex, "maxblank") {
+			limit, _ := strconv.Atoi(ex[len("maxblank"):])
+			total := 0
+			for _, op := range ops {
+				if op[0] == 'P' || op[0] == 'T' {
+					k, _ := strconv.Atoi(op[1:])
+					total += k
+				}
+			}
+			if total > limit {
+				return false
+			}
+		}
 		for _, op := range ops {
 			switch ex {
 			case "nocrlf":
